@@ -68,7 +68,11 @@ impl<T: Float> LineSearchMethod<T> for Backtracking<T> {
 
         while fx1 > f0 + self.c1 * a2 * df0 {
             if iteration > self.max_iterations {
-                panic!("Linesearch failed to converge, reached maximum iterations.");
+                // no step gives a sufficient decrease (the objective is flat to working
+                // precision along this direction): stay at the current point
+                a2 = T::zero();
+                fx1 = f0;
+                break;
             }
 
             let a_tmp;
